@@ -64,7 +64,67 @@ def run_capture_arms(rec, S):
     if len(parts) < 2:
         rec.anchor_lost("F4.repl-capture", "two `match state` sites in resolve_capture")
         return
+    # and they agree with how the variable is then accessed: a state that variable_get/variable_set read through the
+    # module table (GetModSym) never needs a capture slot
+    modstates = set()
+    for g in ("variable_get", "variable_set"):
+        fg = fns.get(g)
+        if fg is None:
+            continue
+        for ev in synq.op_events(fg):
+            if ev.name in ("GetModSym", "SetModSym"):
+                for c in ev.ctx:
+                    if c[0] == "arm" and "state" in str(c[1]):
+                        modstates |= set(v for v in c[2] if v != "_")
+    if modstates:
+        okm = all(modstates <= set(p[1]) for p in parts)
+        rec.inst(R, "states read through the module table (%s) take no capture slot" % sorted(modstates), ok=okm, loc=L(COMPILER, parts[0][0]))
+        if not okm:
+            miss = sorted(set().union(*[modstates - set(p[1]) for p in parts]))
+            rec.finding(R, "F4.repl-capture/module-state-captured/%s" % ",".join(miss), "Compiler::resolve_capture allocates a capture slot for symbols in state %s although variable_get/variable_set access them through the module table: a function entered at the prompt that mentions a symbol of an earlier line gets a spurious CaptureIndex::Local(0), and op_closure fills it with whatever sits in stack slot 0 (the entry's script function) reinterpreted as a box" % miss, loc=L(COMPILER, parts[0][0]), fn="resolve_capture")
     ok = len(set((p[1], p[2]) for p in parts)) == 1
     rec.inst(R, "resolve_capture: %d state dispatches agree (%s without capture)" % (len(parts), sorted(parts[0][1])), ok=ok, loc=L(COMPILER, parts[0][0]))
     if not ok:
         rec.finding(R, "F4.repl-capture/arms-disagree", "the `match state` arms of Compiler::resolve_capture disagree on which symbol states need no capture (%s): a name found further out hands back a capture index that the intermediate function never allocated" % " vs ".join(str(sorted(p[1])) for p in parts), loc=L(COMPILER, parts[0][0]), fn="resolve_capture")
+
+
+def run_upsert(rec, F):
+    R = rec.rule("F4.repl-source", "the REPL registers every entry under the same file name: VmFiles::upsert stores the new source text on the already-known arm as well as on the new-file arm (both of its arguments reach the stored file on every arm) - diagnostics and line tables of later entries are computed from what is stored here")
+    fn = F.fn("laythe_vm::source::files::VmFiles::upsert")
+    if fn is None:
+        rec.anchor_lost("F4.repl-source", "VmFiles::upsert")
+        return
+    sw = None
+    for b in sorted(fn.reachable):
+        t = fn.blocks[b]["t"]
+        if t["k"] == "switch" and "'get'" in str(sem.desc_operand(fn, t["on"])):
+            sw = b
+            break
+    if sw is None:
+        rec.anchor_lost("F4.repl-source", "the name_map.get(..) dispatch in upsert")
+        return
+    t = fn.blocks[sw]["t"]
+    arms = [(v, dst) for v, dst in t["targets"]] + [("otherwise", t["otherwise"])]
+    taints = {"name": sem.forward_taint(fn, {2}), "source": sem.forward_taint(fn, {3})}
+    from ..facts import succs
+    for v, dst in arms:
+        # blocks only this arm reaches
+        others = set()
+        for v2, d2 in arms:
+            if d2 != dst:
+                others |= sem.region_from_edge(fn, d2)
+        region = sem.region_from_edge(fn, dst) - others
+        if not region or all(fn.blocks[b]["t"]["k"] == "unreachable" for b in region):
+            continue
+        for pname, tl in taints.items():
+            stored = False
+            for b in region:
+                for s in fn.blocks[b]["s"]:
+                    if s["r"]["k"] == "agg" and "VmFile" in s["r"].get("adt", "") and any((op_place(o) or {}).get("l") in tl for o in s["r"].get("ops", [])):
+                        stored = True
+                    if any(p[0] == "field" and p[2] == pname for p in s["d"]["p"]) and any(q["l"] in tl for q in sem.places_in_rvalue(s["r"])):
+                        stored = True
+            arm = "known file" if v == "1" else "new file" if v in ("0", "otherwise") else str(v)
+            rec.inst(R, "upsert (%s): `%s` is stored" % (arm, pname), ok=stored, loc=fn.loc)
+            if not stored:
+                rec.finding(R, "F4.repl-source/%s/%s" % (arm.replace(" ", "-"), pname), "VmFiles::upsert does not store its `%s` argument on the %s arm: at the prompt every entry reuses the file name, so the file database keeps the text of an earlier entry - diagnostics for a later entry slice the stale text (out-of-range panic) and the current entry's source is no longer rooted" % (pname, arm), loc=fn.loc, fn=fn.path)
